@@ -174,6 +174,7 @@ type rig struct {
 	cl    *client.Client
 	cur   atomic.Pointer[probe]
 	trips int64
+	tmp   []string // files written for AddFile(path), removed after the request
 }
 
 func newRig(split bool) *rig {
@@ -243,6 +244,7 @@ func (o *outcome) manner() string {
 func (r *rig) roundTrip(p *probe) *outcome {
 	r.cur.Store(p)
 	r.trips++
+	defer r.removeUploads()
 	o := &outcome{p: p}
 	req := r.cl.R()
 	val := p.want.Interface()
@@ -266,11 +268,11 @@ func (r *rig) roundTrip(p *probe) *outcome {
 		resp, err = req.SetFormDataWithStruct(val).Post(rigURL)
 	case sMultipart:
 		if p.send != nil && p.send.fileFirst {
-			attachFiles(req, p.send)
+			r.attachFiles(req, p.send)
 			req.SetFormDataWithStruct(val)
 		} else {
 			req.SetFormDataWithStruct(val)
-			attachFiles(req, p.send)
+			r.attachFiles(req, p.send)
 		}
 		resp, err = req.Post(rigURL)
 	case sHeader:
